@@ -7,6 +7,7 @@ form is checked for not touching its source and the in-place form for equalling 
 """
 from __future__ import annotations
 
+import weakref
 from fractions import Fraction
 
 from . import core
@@ -25,6 +26,7 @@ THEOREMS = ["Mesa.ASet." + t for t in (
     "C03_select_every_parameter_combination", "C03_constructor_keeps_first_occurrences", "C03_set_writes_members_only",
     "C03_both_code_paths_build_the_same_set", "C03_set_then_get_reads_the_value",
     "C03_getitem_negative_indices_and_slices", "C03_agg_min_max_and_error_arms",
+    "C03_map_by_name_is_the_agents_own_attribute",
     "C18_agents_remove_absent_reject_unchanged", "C18_agents_sort_missing_key_reject_unchanged",
     "C18_agents_groupby_missing_key_reject_unchanged", "C18_agents_pop_empty_reject_unchanged",
     "C18_agents_any_reject_unchanged", "C18_agents_reject_exactly_when")]
@@ -53,6 +55,19 @@ HEADER_LINES = 1
 _CL = None
 
 
+class _Own:
+    """a callable stored on an instance under the name `own<k>` (strategy pattern); it refers to its owner weakly - a strong
+    reference back would be a cycle and the harness relies on refcounting deaths (`kill`)"""
+
+    __slots__ = ("ref", "name")
+
+    def __init__(self, agent, name):
+        self.ref, self.name = weakref.ref(agent), name
+
+    def __call__(self, d):
+        return 3 * getattr(self.ref(), self.name) + d
+
+
 def classes():
     global _CL
     if _CL is None:
@@ -66,6 +81,7 @@ def classes():
                 self.x = x
                 if y is not None:
                     self.y = y
+                self.own0, self.own1, self.own2 = _Own(self, "x"), _Own(self, "y"), _Own(self, "z")
 
             def plus0(self, d):
                 return self.x + d
@@ -75,6 +91,25 @@ def classes():
 
             def plus2(self, d):
                 return self.z + d
+
+            def base(d):  # (decorated below: a staticmethod)
+                return 2 * d
+
+            base = staticmethod(base)
+
+            @classmethod
+            def rank(cls, d):
+                return classes()[1].index(cls) + d
+
+            # decoys: every instance carries its own `own<k>` (see _Own), which is what `agent.own<k>` means
+            def own0(self, d):
+                return -999
+
+            def own1(self, d):
+                return -999
+
+            def own2(self, d):
+                return -999
 
         class T1(T0):
             pass
@@ -88,6 +123,7 @@ def classes():
                 self.x = x
                 if y is not None:
                     self.y = y
+                self.own0, self.own1, self.own2 = _Own(self, "x"), _Own(self, "y"), _Own(self, "z")
 
             def plus0(self, d):
                 return self.x + d
@@ -97,6 +133,25 @@ def classes():
 
             def plus2(self, d):
                 return self.z + d
+
+            def base(d):  # (decorated below: a staticmethod)
+                return 2 * d
+
+            base = staticmethod(base)
+
+            @classmethod
+            def rank(cls, d):
+                return classes()[1].index(cls) + d
+
+            # decoys: every instance carries its own `own<k>` (see _Own), which is what `agent.own<k>` means
+            def own0(self, d):
+                return -999
+
+            def own1(self, d):
+                return -999
+
+            def own2(self, d):
+                return -999
 
         _CL = (Model, [T0, T1, T2, T3], AgentSet)
     return _CL
@@ -342,6 +397,12 @@ class Impl:
                 r = s.map(lambda a: getattr(a, n) * 2 + 1)
             elif f[0] == "plus":
                 r = s.map(f"plus{int(f[1])}", int(f[2]))
+            elif f[0] == "stat":
+                r = s.map("base", int(f[1])) if int(f[1]) % 2 else s.map("base", d=int(f[1]))
+            elif f[0] == "cls":
+                r = s.map("rank", int(f[1])) if int(f[1]) % 2 else s.map("rank", d=int(f[1]))
+            elif f[0] == "own":
+                r = s.map(f"own{int(f[1])}", int(f[2]))
             else:
                 r = s.map("nosuch")
             self.cur["values"] = r
@@ -624,7 +685,8 @@ def gen_scenario(R, rejecting=False):
         elif k < 0.74:
             lines.append(f"agg {s} {R.choice([0, 0, 1, 2])} {R.choice(['sum', 'min', 'max', 'len'])}")
         elif k < 0.80:
-            lines.append(f"map {s} " + R.choice(["dbl:0", "dbl:1", "plus:0:3", "plus:1:-2", "plus:2:1", "nosuch"]))
+            lines.append(f"map {s} " + R.choice(["dbl:0", "dbl:1", "plus:0:3", "plus:1:-2", "plus:2:1", "nosuch", "stat:3", "stat:-2", "cls:1", "cls:4",
+                                                "own:0:2", "own:1:-1", "own:2:5"]))
         elif k < 0.85:
             lines.append(f"item {s} {R.randrange(-n - 2, n + 2)}")
         elif k < 0.88:
@@ -886,6 +948,12 @@ def _oracle(sc, obs):
                 want = []
             elif f[0] == "dbl":
                 want = [attrs0[i][int(f[1])] * 2 + 1 for i in L]
+            elif f[0] == "stat":
+                want = [2 * int(f[1]) for i in L]  # [a.base(d) for a in members]
+            elif f[0] == "cls":
+                want = [tys[i] + int(f[1]) for i in L]  # [a.rank(d) for a in members]
+            elif f[0] == "own":
+                want = [3 * attrs0[i][int(f[1])] + int(f[2]) for i in L]  # [a.own<k>(d) for a in members]
             else:
                 want = [attrs0[i][int(f[1])] + int(f[2]) for i in L]
             if ev["values"] != want:
